@@ -119,6 +119,17 @@ theorem step_share {s s' : St} {op : Op} {o : Out} (hi : Inv s) (hS : 0 < s.S)
       obtain ⟨rfl, _⟩ := h
       exact ShareLe.refl _
     · simp at h
+  case lock =>
+    simp only [Option.map_eq_some_iff, Prod.mk.injEq] at h
+    obtain ⟨s1, h1, rfl, _⟩ := h
+    obtain ⟨_, dl, ul, sc, rfl⟩ := lockCfg_spec h1
+    exact ShareLe.refl _
+  case epoch =>
+    split at h
+    · simp only [Option.some.injEq, Prod.mk.injEq] at h
+      obtain ⟨rfl, _⟩ := h
+      exact ShareLe.refl _
+    · simp at h
 
 theorem run_share (ops : List Op) {s : St} (hi : Inv s) (hS : 0 < s.S) : ShareLe s (run s ops) := by
   induction ops generalizing s with
